@@ -13,8 +13,10 @@ EAGAIN, ECONNRESET, ENOMEM = 11, 104, 12
 
 
 def gen_pool_case(rnd, i):
-    n = rnd.choice([0, 0, 1, 1, 2, 3, 5])
-    reserve = rnd.choice([0, 1, 15, 16, 100, 5000])
+    n = rnd.choice([0, 0, 1, 1, 2, 3, 5, 8])
+    # (sizes up to megabytes: the promise "pre-allocated with the reserved capacity" holds for every (N, reserve), also when
+    #  N * reserve is large — e.g. the OS-determined receive size of ~200 kB times a handful of buffers)
+    reserve = rnd.choice([0, 1, 15, 16, 100, 5000, 5000, 212992, 300000, 2000000])
     ops = [(10, [1, n, reserve])]
     if n == 0:
         reserve = 0      # capacity is only promised for pre-allocated pools
@@ -189,7 +191,7 @@ SPEC = {
     "id": "C10", "extra": schedcheck.extra_stage(("pool",), [schedcheck.mon_pool]), "module": MODULE, "theorems": THEOREMS, "harness": "sim",
     "generate": generate, "project": project, "nontrivial_key": nontrivial_key, "monitor": monitor_full,
     "distribution": distribution,
-    "rule": "random Get/release/resize histories on BufferPool(N, reserve) with N in {0,1,2,3,5}, incl. running past the limit and "
+    "rule": "random Get/release/resize histories on BufferPool(N, reserve) with N in {0,1,2,3,5,8} and reserve from 0 to 2 MB, incl. running past the limit and "
             "scrambled release order; buffered TCP/UDP sockets with N receive buffers under successful, timed-out, failing and "
             "peer-closed receives (virtual OS). A case is non-trivial if it performs >= 2 Get/receive operations; distinct = distinct case text.",
     "assumptions": ["libstdc++: clear/resize never lower std::string capacity", "single-threaded histories in the sim harness; concurrent Get/Recycle are serialised by m_mtx (every concurrent history is one of the sequential ones)"],
